@@ -80,6 +80,7 @@ type interpreter struct {
 	mergeAborts  int
 	memoHits     int
 	crossMemo    map[string]value
+	auxRegistry  map[string]auxEntry
 	heapFreeCache map[*ssa.Function]bool
 	zeroStubs    map[string]bool
 }
